@@ -19,7 +19,8 @@ def work(args):
     head = subprocess.check_output(['git', '-C', '/repo', 'rev-parse', 'HEAD'], text=True).strip()
     if not os.path.isdir(wt):
         subprocess.run(['git', '-C', '/repo', 'worktree', 'add', '--detach', '-q', wt, head], check=True)
-    subprocess.run(['git', '-C', wt, 'checkout', '-q', '--detach', head])
+    subprocess.run(['git', '-C', wt, 'reset', '-q', '--hard'])      # a killed run may have left a patched tree behind
+    subprocess.run(['git', '-C', wt, 'checkout', '-q', '--detach', head], check=True)
     out = []
     for d in seeds:
         subprocess.run(['git', '-C', wt, 'reset', '-q', '--hard', 'HEAD'])
